@@ -79,6 +79,10 @@ CHECKS.update({
    text="The capturing logger implements every logger interface of the repository and reports, per call, which candidate tokens (all user-message / data values of the scenario, all shared secrets) it shows; TLC, knowing from the replies which request answers the password prompt (or is a PAP START), flags a call that shows that request's password, on success, failure, abort, error and unrecognised-packet paths, with ASCII and non-ASCII passwords.",
    note=REF_NOTE),
 })
+CHECKS["C13"] = dict(engine="ref", design_ref="5/C13", category="model_checking",
+   technique=REF_TECH + "evaluates Admission.tla (deny beats allow, first matching secret configuration in order, IPv4-mapped = IPv4, bit-exact prefix containment) on every lookup of the real loader, and judges probe logins against the user set of the bound scope",
+   text="Configurations with 1-3 ordered secret configurations over nested/overlapping IPv4 and IPv6 prefixes, deny/allow lists, users in one, several or no scopes and the same name with per-scope credentials are loaded by the real loader; connections arrive from first/last/just-outside/interior addresses of every prefix in 4-octet, IPv4-mapped and IPv6 form; TLC checks refused vs served, the key of the first matching configuration, no octet written and no handler on a refused connection, and (through probe logins with every scope's credentials) that only the bound scope's users exist.",
+   note=REF_NOTE + " A secret configuration none of whose users exists is left to the ambiguity rule (the scope actually bound is identified by its key).")
 CHECKS["C07"]["engine"] = "server+ref"
 CHECKS["C07"]["technique"] = CHECKS["C07"]["technique"] + "; reference-server part: " + REF_TECH + "counts handler invocations and written packets per request for every handler path and configuration"
 CHECKS["C07"]["text"] = CHECKS["C07"]["text"] + " Reference level: the same count on the real reference server for every AAA path (well-formed, malformed, non-ASCII, out-of-place requests; users with and without authenticator/accounter/groups), with Handlers.tla predicting the single reply."
@@ -89,7 +93,7 @@ CHECKS["C05"] = dict(engine="framing", design_ref="5/C05", category="model_check
 
 ENGINES = [
  {"name": "ref", "path": "lib/ref_family.py, lib/refgen.py, lib/combo.py + spec/Handlers.tla, Authz.tla, Regex.tla, Admission.tla, Msgs.tla, Trace_Ref.tla + harness/ref.go, caplog.go",
-  "serves_properties": ["C07", "C09", "C10", "C11", "C12", "C14", "C18"], "kind_free_text": "reference server replay + TLC trace validation with model and oracle layers"},
+  "serves_properties": ["C07", "C09", "C10", "C11", "C12", "C13", "C14", "C18"], "kind_free_text": "reference server replay + TLC trace validation with model and oracle layers"},
  {"name": "framing", "path": "lib/framing_family.py + spec/Framing.tla, FramingFn.tla, MC_Framing.tla, Trace_Framing.tla + harness/chaos.go (stream mode)",
   "serves_properties": ["C05"], "kind_free_text": "all-segmentations model check + stream replay"},
  {"name": "wire", "path": "lib/wire_family.py + spec/Wire.tla, MC_Wire.tla, Trace_Wire.tla + harness/codec.go",
